@@ -181,6 +181,8 @@ pub fn eval_from_bytes_bitcoin(bytes: &[u8], version_id: u8) -> EvaluatedScript 
 /// `Script::is_multisig` counts the pushed keys in a `u8`, so a script with more than 255 pushes
 /// after the leading number overflows that counter (a panic in builds with overflow checks).
 /// No multisig script has that many keys.
+/// It also accepts any opcode in the place of `OP_n` (`OP_2 <key> <key> OP_DUP OP_CHECKMULTISIG`),
+/// which is not an m-of-n multisig script.
 fn is_multisig(script: &Script) -> bool {
     let pushes = script
         .instructions()
@@ -188,7 +190,14 @@ fn is_multisig(script: &Script) -> bool {
         .take_while(|i| matches!(i, Ok(Instruction::PushBytes(_))))
         .take(256)
         .count();
-    pushes < 256 && script.is_multisig()
+    let key_count_is_a_number = match script.instructions().nth(1 + pushes) {
+        Some(Ok(Instruction::Op(op))) => {
+            (opcodes::all::OP_PUSHNUM_1.to_u8()..=opcodes::all::OP_PUSHNUM_16.to_u8())
+                .contains(&op.to_u8())
+        }
+        _ => false,
+    };
+    pushes < 256 && key_count_is_a_number && script.is_multisig()
 }
 
 /// Workaround to parse address from p2pk scripts
